@@ -14,7 +14,9 @@ EXPLANATION = ("The three site factories (caltech_acn, jpl_acn, office001_acn) a
                "EVSE of the site; every rated pod / sub-panel constraint (by its public name) exists, is a single-angle unit sum resp. a "
                "line-current triple inside one transformer's set, with a limit not above the documented rating; the basic and real-EVSE "
                "variants build identical constraint tables. With the hand lemma P = Re sum V_phi conj(I_phi) <= 120(|Ia|+|Ib|+|Ic|) this "
-               "bounds the power through each transformer by its capacity for every feasible schedule and every capacity value.")
+               "bounds the power through each transformer by its capacity for every feasible schedule and every capacity value. The "
+               "`voltage` argument is evaluated as a tainted number: no constraint limit may be computed from it (ratings are at nominal "
+               "voltages); a dependent limit is re-evaluated at half and twice the default voltage and reported with the violating value.")
 NOT_DECIDED = ("that ChargingNetwork.is_feasible evaluates the phasor sums correctly (C06) and that Current implements the algebra the "
                "evaluator assumes (C12); the 360*tolerance slack the feasibility check itself grants")
 
